@@ -237,3 +237,49 @@ type Locker interface {
 	Lock()
 	Unlock()
 }
+
+// Pool replaces sync.Pool: a deterministic LIFO free list (the real pool's per-P caches behave the same for the
+// goroutines of one P; victim-cache eviction by the garbage collector is not modelled).
+type Pool struct {
+	New   func() any
+	items [64]any
+	n     int
+	tok   byte
+}
+
+// Get ...
+//
+//go:norace
+func (p *Pool) Get() any {
+	if s := active; s != nil && !s.aborting {
+		s.point(&plainOp{"Pool.Get"})
+	}
+	if p.n > 0 {
+		p.n--
+		x := p.items[p.n]
+		p.items[p.n] = nil
+		raceAcquire(unsafe.Pointer(&p.tok))
+		return x
+	}
+	if p.New != nil {
+		return p.New()
+	}
+	return nil
+}
+
+// Put ...
+//
+//go:norace
+func (p *Pool) Put(x any) {
+	if x == nil {
+		return
+	}
+	if s := active; s != nil && !s.aborting {
+		s.point(&plainOp{"Pool.Put"})
+	}
+	raceReleaseMerge(unsafe.Pointer(&p.tok))
+	if p.n < len(p.items) {
+		p.items[p.n] = x
+		p.n++
+	}
+}
